@@ -559,7 +559,12 @@ func buildMessage(kind int) util.Message {
 		return p
 	case 10:
 		p := NewPortMod(vr.Int("port"))
-		copy(p.HWAddr, vr.Bytes("hw", 6))
+		if vr.Bool("assign-hw") {
+			// the address field is exported: a caller may assign any net.ParseMAC result (6, 8 or 20 bytes) or nil
+			p.HWAddr = vr.Bytes("hw", []int{6, 8, 0, 20}[vr.Choice("hwlen", 4)])
+		} else {
+			copy(p.HWAddr, vr.Bytes("hw", 6))
+		}
 		p.Config, p.Mask, p.Advertise = vr.U32("config"), vr.U32("mask"), vr.U32("advertise")
 		return p
 	case 11:
